@@ -42,10 +42,10 @@ impl Val {
     /// that they are independent of spans and of the input representation.
     pub fn flat(&self, out: &mut String) {
         match self {
-            Val::Unit | Val::Num(_) | Val::Span(..) | Val::Fb(_) | Val::Obs { .. } => {}
+            // slices and spans are not part of the text (kinds without slices degrade `to_slice` to `to_span`)
+            Val::Unit | Val::Num(_) | Val::Span(..) | Val::Slice { .. } | Val::Fb(_) | Val::Obs { .. } => {}
             Val::Tok(c) => out.push(*c),
             Val::Str(s) => out.push_str(s),
-            Val::Slice { s, .. } => out.push_str(s),
             Val::Seq(v) => v.iter().for_each(|x| x.flat(out)),
             Val::Opt(o) => {
                 if let Some(x) = o {
